@@ -58,6 +58,7 @@ func e6Case(seed uint64, n int, race bool) Case {
 		var leaves []*e6leaf
 		var lmu sync.Mutex
 		var started atomic.Int64 // events whose Send has begun
+		var midCloses atomic.Int64
 
 		addLeaf := func(rr *kit.Rng, mid bool) {
 			lmu.Lock()
@@ -114,6 +115,28 @@ func e6Case(seed uint64, n int, race bool) Case {
 						if core != nil {
 							core.Sleep(time.Duration(1+rr.Intn(30)) * time.Microsecond)
 						}
+						if rr.Chance(35) {
+							// close a leaf while events are being distributed: the others
+							// must not notice
+							lmu.Lock()
+							var open []*e6leaf
+							for _, l := range leaves {
+								if l.closedAt == -1 {
+									open = append(open, l)
+								}
+							}
+							var victim *e6leaf
+							if len(open) > 3 {
+								victim = open[rr.Intn(len(open))]
+								victim.closedAt = -2 // closed mid-burst: how much it received is not judged
+							}
+							lmu.Unlock()
+							if victim != nil {
+								victim.n.closer()
+								midCloses.Add(1)
+							}
+							continue
+						}
 						addLeaf(rr, true)
 					}
 				}()
@@ -146,7 +169,7 @@ func e6Case(seed uint64, n int, race bool) Case {
 				lmu.Lock()
 				if len(leaves) > 2 {
 					l := leaves[rng.Intn(len(leaves))]
-					if l.closedAt < 0 {
+					if l.closedAt == -1 {
 						l.closedAt = sentN
 						l.n.closer()
 					}
@@ -169,6 +192,14 @@ func e6Case(seed uint64, n int, race bool) Case {
 			upto := len(sent)
 			if l.closedAt >= 0 {
 				upto = l.closedAt
+			}
+			if l.closedAt == -2 {
+				// closed while events were in flight: must still be an in-order,
+				// duplicate-free run of the published sequence
+				if n, why := checkSubsequence(got, sent); n < 0 {
+					r.V("C05", "order-or-duplicate", "%s (closed mid-burst): %s", l.n, why)
+				}
+				continue
 			}
 			r.Add("leaves", 1)
 			r.Add("events-received", int64(len(got)))
@@ -221,6 +252,7 @@ func e6Case(seed uint64, n int, race bool) Case {
 		}
 		r.Add("published", int64(len(sent)))
 		r.Add("bursts", int64(burstNo))
+		r.Add("mid-burst-closes", midCloses.Load())
 		if core != nil {
 			r.Set("signatures", strconv.FormatUint(core.Signature(), 16))
 			for _, p := range core.Points() {
